@@ -53,7 +53,9 @@ def needsSep (a b : Token) : Bool :=
 def sepTable : List Text :=
   [[], [' '], ['\t'], ['\n'], [' ', ' '], ['\r', '\n'], [Char.ofNat 0x0B], [Char.ofNat 0x0C],
    [Char.ofNat 0x85], [Char.ofNat 0x200E], [Char.ofNat 0x200F], [Char.ofNat 0x2028], [Char.ofNat 0x2029],
-   "// c\n".toList, "//\n".toList, " // x \"y\" z\n ".toList, "\n\n".toList]
+   "// c\n".toList, "//\n".toList, " // x \"y\" z\n ".toList, "\n\n".toList,
+   -- comments with multi-byte characters (byte length and character count differ by 1 and by many)
+   "// é\n".toList, "// één → 😀 日本語\n".toList]
 
 def sepAt (k : Nat) : Text := sepTable.getD (k % sepTable.length) [' ']
 
